@@ -292,4 +292,263 @@ theorem findTranslations_inv (tbl : Aliases) (hs : List (List Str)) (hsh : trSho
   simpa [findTranslations] using this
 
 
+/-! ### the row loop: what one row appends is what is due for it -/
+
+theorem deprecated_pinned' : deprecatedTypes = documentedDeprecated := by decide
+
+/-- the part of `rowDue` that belongs to a typed, active row -/
+def typedDue (n : Nat) (rb : PRow) (t : Str) (pkeys : List Str) : List W :=
+  (if documentedDeprecated.contains t && t ≠ "audit".toList then [W.deprecated n t] else []) ++
+  (match Rows.matchControl "begin" true t with
+   | some ct => if !settingsTypes.contains t && t ≠ "audit".toList && (Rows.matchControl "end" false t).isNone
+                   && noLabelCond rb ct then [W.noLabel n ct] else []
+   | none => []) ++
+  (if plainQuestion t && isSelectExternal t && !keyIn rb "choice_filter" then [W.extNoFilter n] else []) ++
+  (if plainQuestion t && (Rows.matchSelect t).isNone && t = "photo".toList && !pkeys.contains "max-pixels".toList
+   then [W.noMaxPixels n] else [])
+
+theorem rowDue_typed (n : Nat) (r0 : PRow) (t : Str) (pkeys : List Str)
+    (hact : active r0 = true) (hne : t ≠ []) (hty : rowType r0 = some t)
+    (hpk : paramKeys ((val1 (body r0) "parameters").getD []) = some pkeys) :
+    rowDue n r0 = (if keyIn r0 "disabled" then [W.disabled n] else []) ++ typedDue n (body r0) t pkeys := by
+  have htyped : typed r0 = true := by
+    cases t with
+    | nil => exact absurd rfl hne
+    | cons c cs => simp [typed, hty]
+  simp only [rowDue, typedDue, skippedTrig, deprecatedTrig, noLabelTrig, extNoFilterTrig, noMaxPixelsTrig,
+    hact, htyped, hty, hpk, Bool.true_and, Bool.not_true, Bool.false_and, Option.getD_some, List.append_assoc]
+  congr 1
+  simp
+  cases hb : Rows.matchControl "begin" true t <;> simp
+
+/-- the or_other flag of a typed row -/
+def typedOther (t : Str) : Bool :=
+  plainQuestion t && (match Rows.matchSelect t with | some (_, _, o) => o | none => false)
+
+theorem typedOut_eq (n : Nat) (rb : PRow) (t : Str) (pkeys : List Str) (o : RowOut)
+    (h : typedOut n rb t pkeys = .ok o) :
+    o.ws = typedDue n rb t pkeys ∧ o.orOther = typedOther t := by
+  unfold typedOut at h
+  rw [deprecated_pinned'] at h
+  unfold typedDue typedOther plainQuestion isSelectExternal
+  generalize "audit".toList = A at *
+  generalize "photo".toList = P at *
+  generalize "loop".toList = L at *
+  generalize "select one external".toList = E at *
+  generalize "max-pixels".toList = M at *
+  by_cases ha : t = A
+  · simp only [ha, if_true] at h
+    cases h
+    subst ha
+    simp
+    split <;> simp
+  · simp only [ha, if_false] at h
+    by_cases hs : settingsTypes.contains t = true
+    · simp only [hs, if_true] at h
+      cases h
+      have hsm : t ∈ settingsTypes := by simpa using hs
+      simp [ha, hsm]
+      split <;> rfl
+    · simp only [hs] at h
+      have hs' : t ∉ settingsTypes := by simpa using hs
+      cases he : Rows.matchControl "end" false t with
+      | some e =>
+        simp only [he, Option.isSome_some, if_true] at h
+        cases h
+        simp [ha, hs', he]
+        split <;> simp
+      | none =>
+        simp only [he, Option.isSome_none, Bool.false_eq_true, if_false] at h
+        cases hb : Rows.matchControl "begin" true t with
+        | some ct =>
+          simp only [hb] at h
+          split at h
+          · cases h
+          · split at h
+            · cases h
+            · cases h
+              simp [ha, hs', he, hb]
+        | none =>
+          simp only [hb] at h
+          cases hm : Rows.matchSelect t with
+          | some x =>
+            obtain ⟨sel, ln, other⟩ := x
+            simp only [hm] at h
+            cases h
+            simp [ha, hs', he, hb, hm]
+          | none =>
+            simp only [hm] at h
+            cases h
+            simp [ha, hs', he, hb, hm]
+
+theorem orOtherRow_typed (r0 : PRow) (t : Str) (hact : active r0 = true) (hne : t ≠ []) (hty : rowType r0 = some t) :
+    orOtherRow r0 = typedOther t := by
+  have htyped : typed r0 = true := by
+    cases t with
+    | nil => exact absurd rfl hne
+    | cons c cs => simp [typed, hty]
+  simp only [orOtherRow, typedOther, hact, htyped, hty, Bool.true_and]
+  rfl
+
+/-- **One row.**  What the loop body appends for row `n` is exactly what is due for it. -/
+theorem rowOut_ok (n : Nat) (r0 : PRow) (o : RowOut) (h : rowOut n r0 = .ok o) :
+    o.ws = rowDue n r0 ∧ o.orOther = orOtherRow r0 := by
+  unfold rowOut at h
+  split at h
+  · cases h
+  · simp only at h
+    by_cases hd : disabledYes r0 = true
+    · simp only [hd, if_true] at h
+      cases h
+      simp [rowDue, skippedTrig, deprecatedTrig, noLabelTrig, extNoFilterTrig, noMaxPixelsTrig,
+        orOtherRow, active, hd]
+      split <;> simp
+      split <;> rfl
+    · have hd' : disabledYes r0 = false := by simpa using hd
+      simp only [hd', Bool.false_eq_true, if_false] at h
+      by_cases hempty : (body r0).isEmpty = true
+      · simp only [hempty, if_true] at h
+        cases h
+        simp [rowDue, skippedTrig, deprecatedTrig, noLabelTrig, extNoFilterTrig, noMaxPixelsTrig,
+          orOtherRow, active, hd', hempty]
+        split <;> simp
+        split <;> rfl
+      · have hne' : (body r0).isEmpty = false := by simpa using hempty
+        have hact : active r0 = true := by simp [active, hd', hne']
+        simp only [hne', Bool.false_eq_true, if_false] at h
+        split at h
+        · cases h
+        · split at h
+          · -- no type cell
+            rename_i hty
+            split at h
+            · cases h
+              rename_i hnl
+              simp [rowDue, skippedTrig, deprecatedTrig, noLabelTrig, extNoFilterTrig, noMaxPixelsTrig,
+                orOtherRow, hact, typed, hty, hnl]
+            · cases h
+          · rename_i hty
+            split at h
+            · cases h
+              rename_i hnl
+              simp [rowDue, skippedTrig, deprecatedTrig, noLabelTrig, extNoFilterTrig, noMaxPixelsTrig,
+                orOtherRow, hact, typed, hty, hnl]
+              exact ⟨by decide, by split <;> rfl⟩
+            · cases h
+          · rename_i c cs hty
+            split at h
+            · cases h
+            · split at h
+              · cases h
+              · rename_i pkeys hpk
+                split at h
+                · rename_i o' ho'
+                  cases h
+                  obtain ⟨h1, h2⟩ := typedOut_eq n (body r0) (c :: cs) pkeys o' ho'
+                  rw [rowDue_typed n r0 (c :: cs) pkeys hact (by simp) hty hpk,
+                    orOtherRow_typed r0 (c :: cs) hact (by simp) hty]
+                  exact ⟨by simp [h1], h2⟩
+                · cases h
+
+theorem rowLoop_ok : ∀ (rs : List PRow) (n : Nat) (st st' : St), rowLoop n rs st = .ok st' →
+    st'.warnings = st.warnings ++ rowsDue n rs ∧ st'.orOther = (st.orOther || rs.any orOtherRow)
+  | [], n, st, st', h => by
+    simp only [rowLoop, Except.ok.injEq] at h
+    subst h; simp [rowsDue]
+  | r :: rs, n, st, st', h => by
+    simp only [rowLoop, rowStep] at h
+    cases ho : rowOut n r with
+    | error e => simp [ho] at h
+    | ok o =>
+      simp only [ho] at h
+      obtain ⟨h1, h2⟩ := rowOut_ok n r o ho
+      obtain ⟨h3, h4⟩ := rowLoop_ok rs (n + 1) _ st' h
+      simp [h3, h4, h1, h2, rowsDue, Bool.or_assoc]
+
+theorem mem_rowsDue (w : W) : ∀ (rs : List PRow) (n : Nat),
+    w ∈ rowsDue n rs ↔ ∃ i r, rs[i]? = some r ∧ w ∈ rowDue (n + i) r
+  | [], n => by simp [rowsDue]
+  | r :: rs, n => by
+    simp only [rowsDue, List.mem_append, mem_rowsDue w rs (n + 1)]
+    constructor
+    · rintro (h | ⟨i, r', hi, hw⟩)
+      · exact ⟨0, r, by simp, by simpa using h⟩
+      · exact ⟨i + 1, r', by simpa using hi, by rw [show n + (i + 1) = n + 1 + i by omega]; exact hw⟩
+    · rintro ⟨i, r', hi, hw⟩
+      cases i with
+      | zero => simp at hi; subst hi; left; simpa using hw
+      | succ j =>
+        right
+        exact ⟨j, r', by simpa using hi, by rw [show n + 1 + j = n + (j + 1) by omega]; exact hw⟩
+
+
+/-- the rows loop is a writer: a prefix of the warnings list is carried along untouched -/
+theorem rowLoop_frame (w0 : List W) : ∀ (rs : List PRow) (n : Nat) (st : St),
+    rowLoop n rs { st with warnings := w0 ++ st.warnings } =
+      (rowLoop n rs st).map (fun s => { s with warnings := w0 ++ s.warnings })
+  | [], n, st => by simp [rowLoop, Except.map]
+  | r :: rs, n, st => by
+    simp only [rowLoop, rowStep]
+    cases ho : rowOut n r with
+    | error e => simp [Except.map]
+    | ok o =>
+      simp only []
+      have := rowLoop_frame w0 rs (n + 1) { warnings := st.warnings ++ o.ws, orOther := st.orOther || o.orOther, kept := st.kept ++ o.kept }
+      simp only [List.append_assoc] at this ⊢
+      exact this
+
+/-- the warnings emitted before the row loop, from an empty list -/
+def preRows (lower : Str → Str) (wb : WB) (v : View) (chW : List W) : List W :=
+  (if wb.settingsRows > 0 then
+      (if wb.settingsHeader.contains "id_string".toList && wb.settingsHeader.contains "form_id".toList
+       then [W.dupId] else [])
+    else match findSheetMisspellings lower supported "settings".toList wb.sheetNames with
+      | some c => [W.misspell "settings".toList c]
+      | none => []) ++
+  (if wb.choices.isEmpty then [] else choiceHeaderWarnings v.chHeaders ++ chW) ++
+  (if wb.hasEntities then []
+    else match findSheetMisspellings lower supported "entities".toList wb.sheetNames with
+      | some c => [W.misspell "entities".toList c]
+      | none => []) ++
+  missingCheck (findTranslations surveyTrTable v.svHeaders) (findTranslations choicesTrTable v.chHeaders)
+
+/-- `convertOn` in writer form -/
+theorem convertOn_eq (lower : Str → Str) (wb : WB) (v : View) (w0 : List W) :
+    convertOn lower wb v w0 =
+      match choicesWarnings (groupChoices (numberFrom 2 v.chRows)) with
+      | .error e => .error e
+      | .ok chW =>
+        match rowLoop 2 v.svRows { warnings := w0 ++ preRows lower wb v chW } with
+        | .error e => .error e
+        | .ok st => .ok ({ kept := st.kept, orOther := st.orOther },
+            st.warnings ++ orOtherCheck st.orOther (findTranslations surveyTrTable v.svHeaders)
+              (findTranslations choicesTrTable v.chHeaders)) := by
+  unfold convertOn preRows
+  cases choicesWarnings (groupChoices (numberFrom 2 v.chRows)) with
+  | error e => rfl
+  | ok chW =>
+    simp only []
+    have key : ∀ X Y : List W, X = Y →
+        (match rowLoop 2 v.svRows { warnings := X } with
+          | .error e => (.error e : Except Stop (Res × List W))
+          | .ok st => .ok ({ kept := st.kept, orOther := st.orOther },
+              st.warnings ++ orOtherCheck st.orOther (findTranslations surveyTrTable v.svHeaders)
+                (findTranslations choicesTrTable v.chHeaders))) =
+        (match rowLoop 2 v.svRows { warnings := Y } with
+          | .error e => .error e
+          | .ok st => .ok ({ kept := st.kept, orOther := st.orOther },
+              st.warnings ++ orOtherCheck st.orOther (findTranslations surveyTrTable v.svHeaders)
+                (findTranslations choicesTrTable v.chHeaders))) := by
+      intro X Y h; rw [h]
+    apply key
+    by_cases h1 : wb.settingsRows > 0 <;>
+    by_cases h2 : (wb.settingsHeader.contains "id_string".toList && wb.settingsHeader.contains "form_id".toList) = true <;>
+    by_cases h3 : wb.choices.isEmpty = true <;>
+    by_cases h4 : wb.hasEntities = true <;>
+    cases h5 : findSheetMisspellings lower supported "settings".toList wb.sheetNames <;>
+    cases h6 : findSheetMisspellings lower supported "entities".toList wb.sheetNames <;>
+    simp only [h1, h2, h3, h4, if_true, if_false, List.append_assoc, List.nil_append, List.append_nil,
+      Bool.false_eq_true]
+
+
 end Pyxv.Warn
